@@ -149,7 +149,15 @@ def r12_2(cx):
                 # ... or a private helper function that was kept as a function (it contains the loop)
                 hlp = [c for c in e.calls() if c.info.get('key') in prog.fns and not prog.fns[c.info['key']].d.get('exported')
                        and prog.fns[c.info['key']].crate == fn.crate and prog.fns[c.info['key']].locals[0].replace(' ', '').endswith('Option<(usize,u32,u32)>')]
-                if (cl or inl or hlp) and e.has_call(which):
+                # ... or the scan spelled windows(2)..find_map(|(i, pair)| (pair[0] > pair[1]).then(|| (i, ..))): the witness is
+                # what the closure handed to find_map returns
+                fm = []
+                for c in e.calls():
+                    if c.op.endswith('Iterator::find_map') or c.op.endswith('Iterator>::find_map'):
+                        fcl = closure_of(prog, c.args[1])
+                        if fcl is not None and fcl.locals[0].replace(' ', '').endswith('Option<(usize,u32,u32)>'):
+                            fm.append(fcl)
+                if (cl or inl or hlp or fm) and e.has_call(which):
                     form, edge = 'nonmonotonic(%s()) is Some' % which.rsplit('::', 1)[-1], ed
         if form is None:
             cx.fail('gate:' + g, fn, fn.loc(pos.bb), 'DecodingError::%s is built on an edge whose guard is not the expected one' % g)
@@ -179,6 +187,8 @@ def r12_2(cx):
     # the neighbour comparison is strict: equal offsets / equal tags are allowed, decreasing ones rejected
     cls = [c for c in prog.closures_of(fn)] + [fn] + [g for g in prog.callees(fn) if hasattr(g, 'locals') and g.crate == fn.crate
                                                       and not g.d.get('exported') and g.locals[0].replace(' ', '').endswith('Option<(usize,u32,u32)>')]
+    # (closures of a helper that was spliced into new(): any closure of the crate that builds the witness type)
+    cls += [g for g in prog.fns.values() if g.kind == 'Closure' and g.crate == fn.crate and g not in cls and g.locals[0].replace(' ', '').endswith('Option<(usize,u32,u32)>')]
     found = False
     for c in cls:
         for pos, st in c.statements():
